@@ -1,6 +1,8 @@
 import PercevalModel.Proto
 import PercevalModel.Model.C07
 import PercevalModel.Model.C07SV
+import PercevalModel.Model.C07Sel
+import PercevalModel.SimProto
 
 open Lean PM PM.Proto PM.Fock PM.C07
 
@@ -89,6 +91,19 @@ def csOfJson (j : Json) : Except String (Option (ℚ × ℚ)) := do
   | .ok (Json.arr #[c, s]) => return some (← ratOfJson c, ← ratOfJson s)
   | .ok _ => throw "bad cs"
   | .error _ => return none
+
+/-- the selection held by the outermost simulator: `{"heralds":[[mode,val],…],"ps":<expr>,"minDet":k,"keep":bool}` -/
+def selOfJson (j : Json) (M : ℕ) : Except String Sel := do
+  let hs ← (← arrOf j "heralds").toList.mapM fun h => do
+    match (← natList h) with
+    | [a, b] => pure (a, b)
+    | _ => throw "bad herald"
+  if hs.any (fun h => M ≤ h.1) then throw "IndexError"
+  if (hs.map (·.1)).eraseDups.length ≠ hs.length then throw "duplicate herald mode"
+  return { heralds := hs, ps := ← PM.SimProto.psOfJson (← j.getObjVal? "ps"),
+           minDet := ← natOf j "minDet", keep := ← boolOf j "keep" }
+
+def nzDistJson (d : Dist.D) : Json := distJson (d.filter fun p => p.2 != 0)
 
 /-- the program part shared by `probs`, `evolve`, `probsmix`: components, mode count, admissibility -/
 def programOfJson (j : Json) : Except String (Items GQ × ℕ × ℕ) := do
@@ -182,6 +197,41 @@ def handle (j : Json) : Json :=
       let s ← natList (← j.getObjVal? "s")
       return Json.mkObj [("src", Json.arr ((sourceDist e s).map fun (q : ℚ × List ℕ) =>
         Json.arr #[ratToJson q.1, toJson q.2]).toArray)]
+    | "thinspect" =>
+      -- a channel block on (a, b) inside N modes holding the Fock state S: by permanents and by the closed form
+      let N ← natOf j "N"
+      let a ← natOf j "a"
+      let b ← natOf j "b"
+      let c ← ratOfJson (← j.getObjVal? "c")
+      let s ← ratOfJson (← j.getObjVal? "s")
+      let S ← natList (← j.getObjVal? "S")
+      if ¬ (a < N ∧ b < N ∧ a ≠ b) ∨ S.length ≠ N ∨ S.getD b 0 ≠ 0 then throw "bad block"
+      if c * c + s * s ≠ 1 then throw "bad amplitudes"
+      let U : Matrix (Fin N) (Fin N) GQ := twoMode N a b (bsH ⟨c, 0⟩ ⟨s, 0⟩)
+      let ts := allStates N S.sum
+      return Json.mkObj [("perm", nzDistJson (ts.map fun T => (T, prob U S T))),
+        ("closed", nzDistJson (ts.map fun T => (T, thinSpect (c * c) (s * s) a b S T)))]
+    | "probssel" =>
+      -- the loss layer with heralds / post-selection / photon filter / keep_heralds (`_postprocess_bsd`)
+      let (comps, M, N) ← programOfJson j
+      let U := (prodV N (rewrite M comps)).toMatrix
+      let inputs ← (← arrOf j "inputs").toList.mapM natList
+      if inputs.any (·.length ≠ M) then throw "input size"
+      let σ ← selOfJson (← j.getObjVal? "sel") M
+      let runs := inputs.map fun s =>
+        let full := lossProbs U M s
+        let svd := lossSvdSel σ U M s
+        let phys := SimSpec.physPerf σ.cond full
+        let ret := Dist.mass (SimSpec.retained σ.cond full)
+        Json.mkObj [("probs", distJson (marginal (lossProbsSel σ U M s))),
+          ("results", distJson (marginal svd.1)), ("logical", ratToJson svd.2.1), ("physical", ratToJson svd.2.2),
+          -- the specification (one conditioning of the marginal distribution) next to the code-shaped model
+          ("spec", distJson (marginal (SimSpec.conditioned σ.cond full))),
+          ("specPhysical", ratToJson phys), ("specLogical", ratToJson (SimSpec.logicalPerf σ.cond full)),
+          ("retained", ratToJson ret),
+          ("mass", ratToJson (Dist.mass (fullDist U (prepareInput M N s))))]
+      return Json.mkObj [("M", toJson M), ("N", toJson N), ("filter", toJson σ.filter),
+        ("runs", Json.arr runs.toArray)]
     | "layers" =>
       let k : Kinds := ⟨← boolOf j "lc", ← boolOf j "td", ← boolOf j "polar", ← boolOf j "ff"⟩
       return Json.mkObj [("layers", toJson (layers k))]
